@@ -419,6 +419,11 @@ def stepProbe (s : St) (impl : List String) : Option (St × StepOut) := do
 def step (s : St) (kind : String) (args impl : List String) : Option (St × StepOut) :=
   if kind = "op" then stepOp s args impl
   else if kind = "probe" then stepProbe s impl
+  else if kind = "one" ∧ args.head? = some "stress" then
+    -- one bounded stress record (C08): after the races every operation through every handle of the
+    -- removed incarnation answered the evicted result (`ok`); the Go side reports a revived handle
+    -- with a `propfail key=stale-handle-revived` record carrying the parameters
+    some (s, { obs := ["ok"], branch := "stress" })
   else if kind = "one" ∧ args.head? = some "conc" then
     -- summary line of one concurrent round (C08, thorough tier); its predicate is evaluated by the
     -- Go side on every handle operation and reported with `propfail` records
